@@ -32,21 +32,21 @@ Proof. destruct k as [m|]; [destruct m|]; reflexivity. Qed.
 
 (* ================================================================ category assignment *)
 Theorem redirect_rule_never_blocks s :
-  is_redirect s = true -> also_block_redirect s = false -> is_important s = false ->
+  is_redirect s = true -> also_block_redirect s = false ->
   blocking_category (category_of s) = false.
 Proof.
-  intros R A I. unfold category_of. rewrite R, A, I.
-  destruct (is_csp s), (is_removeparam s), (is_generic_hide s), (is_exception s), (sh_tagged s); reflexivity.
+  intros R A. unfold category_of. rewrite R, A.
+  destruct (is_csp s), (is_removeparam s), (is_generic_hide s), (is_exception s), (is_important s), (sh_tagged s); reflexivity.
 Qed.
 
 Theorem redirect_rule_goes_nowhere s :
   is_redirect s = true -> also_block_redirect s = false ->
   is_csp s = false -> is_removeparam s = false -> is_generic_hide s = false ->
-  is_exception s = false -> is_important s = false ->
+  is_exception s = false ->
   category_of s = CatNowhere /\ in_redirects s = true.
 Proof.
-  intros R A C P G E I. unfold category_of, in_redirects. rewrite R, A, C, P, G, E, I.
-  destruct (sh_tagged s); split; reflexivity.
+  intros R A C P G E. unfold category_of, in_redirects. rewrite R, A, C, P, G, E.
+  destruct (is_important s), (sh_tagged s); split; reflexivity.
 Qed.
 
 Theorem redirect_blocks s :
@@ -59,14 +59,12 @@ Proof.
   destruct (is_important s), (sh_tagged s); cbn; auto.
 Qed.
 
-(* the carved-out class: redirect-rule together with important lands in `importants` *)
-Theorem redirect_rule_important_blocks_refuted :
-  exists s, is_redirect s = true /\ also_block_redirect s = false /\ is_exception s = false /\
-            blocking_category (category_of s) = true.
-Proof.
-  exists (mk_shape (N.lor (mask_redirect_rule_option M_DEFAULT_OPTIONS) M_IS_IMPORTANT) false).
-  vm_compute. repeat split; reflexivity.
-Qed.
+(* redirect-rule together with important (finding repaired in /repo b0d8343): still nowhere *)
+Example ex_redirect_rule_important :
+  let s := mk_shape (N.lor (mask_redirect_rule_option M_DEFAULT_OPTIONS) M_IS_IMPORTANT) false in
+  is_redirect s = true /\ also_block_redirect s = false /\ is_important s = true /\
+  category_of s = CatNowhere.
+Proof. vm_compute. repeat split; reflexivity. Qed.
 
 (* flags through the parser's mask updates *)
 Lemma flag_lor a b f : flag (N.lor a b) f = flag a f || flag b f.
@@ -102,6 +100,16 @@ Proof.
   replace (flag M_IS_REDIRECT M_IS_IMPORTANT) with false by (vm_compute; reflexivity).
   rewrite !orb_false_r, orb_true_r. auto.
 Qed.
+
+(* ================================================================ tags *)
+Theorem untagged_delivered matches : delivered matches None NO_TAGS = matches.
+Proof. unfold delivered. destruct matches; reflexivity. Qed.
+
+(* the carved-out class: a matching redirect rule whose tag is ENABLED is still not delivered,
+   because the redirect list is probed with the empty tag set ("tag + redirect is unsupported") *)
+Theorem tagged_redirect_inert_refuted :
+  exists t enabled, In t enabled /\ delivered true (Some t) NO_TAGS = false.
+Proof. exists (bs "t1"), [bs "t1"]. split; [left; reflexivity|reflexivity]. Qed.
 
 (* ================================================================ independence of the blocking side *)
 Theorem redirect_independent_of_block sup b1 b2 st m :
@@ -634,7 +642,7 @@ Proof. vm_compute. split; reflexivity. Qed.
 (* ================================================================ hypotheses of the category theorems are satisfiable *)
 Example ex_redirect_rule_shape :
   let s := mk_shape (mask_redirect_rule_option M_DEFAULT_OPTIONS) false in
-  is_redirect s = true /\ also_block_redirect s = false /\ is_important s = false /\
+  is_redirect s = true /\ also_block_redirect s = false /\
   category_of s = CatNowhere /\ in_redirects s = true.
 Proof. vm_compute. repeat split; reflexivity. Qed.
 
